@@ -73,7 +73,7 @@ class TranslatorPython(Translator):
                     (1 << expr.size) - 1
                 )
         elif expr.op == "parity":
-            return "(%s & 0x1)" % self.from_expr(expr.args[0])
+            return "((bin(%s & 0xff).count('1') + 1) & 0x1)" % self.from_expr(expr.args[0])
         elif expr.op == "==":
             return self.from_expr(
                 ExprCond(expr.args[0] - expr.args[1], ExprInt(0, 1), ExprInt(1, 1))
